@@ -56,7 +56,13 @@ class bgroup(Command):
                 item.parentNode = self
                 item.digest(tokens)
             self.appendChild(item)
-        self.paragraphs(force=False)
+        # Only group paragraphs here.  Text is normalized by the node that
+        # contains the group, which knows whether character substitutions
+        # apply (they do not in math and verbatim material).
+        for item in self:
+            if item.level == self.PAR_LEVEL:
+                self.paragraphs(force=False)
+                break
 
     @property
     def source(self):
